@@ -65,6 +65,8 @@ def meta_maker(rng, counter):
                 d["stylesheet"] = {"href": "c%d.css" % counter[0]}
             if rng.random() < 0.3:
                 d["head"] = [gen.TAG("title", gen.T("dh%d" % counter[0]))]
+            if rng.random() < 0.3:
+                d["sub"] = True    # an instance of a user subclass (one of them with a constructor signature of its own)
             out.append(d)
         else:
             out.append({"k": "headc", "c": [gen.TAG("title", gen.T("hc%d" % rng.randint(1, 3)))]})
